@@ -80,6 +80,10 @@ type Contract struct {
 	Linearizable bool      // verified under interference: see linear.go
 	Shared      []AssignTarget // the shared abstract state other threads may change between primitive calls
 	ObjInvs     []*Clause  // object invariants: assumed at entry, proved at every return
+	IterParam   string     // iterates <param> over <dom>, <val>: the callee calls that function argument once per entry
+	IterDom     ast.Expr
+	IterVal     ast.Expr
+	Iterations  map[int][]*Clause // caller side: iteration k invariant ...
 	ThreadWG  ast.Expr // the WaitGroup whose Done the thread calls exactly once
 	GhostTags []string
 	Probes    []ProbeDef
@@ -469,6 +473,45 @@ func (s *Specs) loadSpecFile(w *World, path string, pkg *packages.Package, trust
 			}
 			c.Pkg = pkg
 			cur.ObjInvs = append(cur.ObjInvs, c)
+		case "iterates":
+			// iterates f over domExpr, valExpr
+			m := regexp.MustCompile(`^(\w+)\s+over\s+(.+)$`).FindStringSubmatch(rest)
+			if m == nil || cur == nil {
+				return fail(l, "iterates <param> over <dom>, <val>")
+			}
+			parts := splitTopLevel(m[2], ',')
+			if len(parts) != 2 {
+				return fail(l, "iterates <param> over <dom>, <val>")
+			}
+			de, err := parseExprAt(strings.TrimSpace(parts[0]), path, l.line)
+			if err != nil {
+				return err
+			}
+			ve, err := parseExprAt(strings.TrimSpace(parts[1]), path, l.line)
+			if err != nil {
+				return err
+			}
+			cur.IterParam, cur.IterDom, cur.IterVal = m[1], de, ve
+		case "iteration":
+			// iteration <k> invariant [label] expr   (k-th call of an iterating callee in this function, source order)
+			f := strings.Fields(rest)
+			if cur == nil || len(f) < 3 || f[1] != "invariant" {
+				return fail(l, "iteration <k> invariant [label] expr")
+			}
+			k, err := strconv.Atoi(f[0])
+			if err != nil {
+				return fail(l, "bad iteration ordinal")
+			}
+			body := strings.TrimSpace(strings.TrimPrefix(strings.TrimSpace(strings.TrimPrefix(rest, f[0])), "invariant"))
+			c, err := parseClause(body, path, l.line)
+			if err != nil {
+				return err
+			}
+			c.Pkg = pkg
+			if cur.Iterations == nil {
+				cur.Iterations = map[int][]*Clause{}
+			}
+			cur.Iterations[k] = append(cur.Iterations[k], c)
 		case "terminates":
 			if cur == nil {
 				return fail(l, "terminates outside contract")
